@@ -373,6 +373,18 @@ def r08_11(ctx: Ctx, rule: str = "R08.11") -> None:
                 return True
         return False
 
+    # after parsing, enable_digests says 'some packed stream has a CRC' (flush_archive appends a CRC and a flag for the new stream only then;
+    # with the switch off while the vector is non-empty the vector falls behind numstreams and close() fails after the header was overwritten)
+    finals = [n for n in walk(rd.node) if isinstance(n, ast.Assign) and any(norm(t) == "self.enable_digests" for t in n.targets) and not isinstance(n.value, ast.Constant)]
+    for a in finals:
+        v = a.value
+        some = (isinstance(v, ast.Compare) and len(v.ops) == 1 and isinstance(v.comparators[0], ast.Constant) and
+                ((isinstance(v.ops[0], ast.Gt) and v.comparators[0].value == 0) or (isinstance(v.ops[0], ast.GtE) and v.comparators[0].value == 1) or
+                 (isinstance(v.ops[0], ast.NotEq) and v.comparators[0].value == 0)) and isinstance(v.left, ast.Call) and dotted(v.left.func) == "len") \
+            or (isinstance(v, ast.Call) and dotted(v.func) in ("any", "bool"))
+        ctx.check(some, rule, rd, a, "enable_digests after parsing means 'at least one packed-stream CRC'",
+                  f"`{norm(a)}` does not mean 'some packed stream carries a CRC': for a base archive with CRCs the append path leaves the flag vector shorter than the number of "
+                  "streams and close() fails after the old header was overwritten", construct="enable_digests after parse")
     compact = all(flag_fact(rd, a) for a in apps)
     if not compact:
         ctx.note(f"{rule}: PackInfo._read stores one CRC per stream (not compact): the writer may index by stream")
@@ -500,6 +512,7 @@ def r08_14(ctx: Ctx, rule: str = "R08.14") -> None:
 
 
 def run(ctx: Ctx) -> None:
+    shared.layout_agreement(ctx, "R08.15")
     r08_14(ctx)
     r08_13(ctx)
     r08_12(ctx)
